@@ -1,12 +1,28 @@
 (* Properties_C32.v — C32: HTML quoting neutralises markup and is reversible.
-   Statements only; proofs live in QuoteProofs.v. *)
+   Statements only; proofs live in QuoteProofs.v.
+   html_quote s = concat (map entry (cstr s)) with the 256 entries regenerated from
+   src/html/Quoting.cc (gen/ByteMaps_gen.v); cstr = the bytes before the first NUL;
+   bytes_ok s = every element is a byte value (below 256). *)
 Require Import SquidV.Bytes SquidV.QuoteModel SquidV.QuoteProofs.
 Require Import SquidV.gen.ByteMaps_gen.
 Local Open Scope N_scope.
 
-(* decoding the entity references of the quoted form (reference decoder html_unquote, strict:
-   it rejects any raw markup metacharacter and any malformed or unknown reference) gives back the
-   C string that was quoted; bytes_ok s says every element is a byte (< 256) *)
+(* the quoted form is a sequence of items, each either one byte that is not a markup
+   metacharacter (less-than, greater-than, double quote, apostrophe, ampersand), or an
+   entity reference: ampersand, name, semicolon, with a name the reference decoder knows
+   (lt gt amp quot apos, decimal or hex numeric below 256) that contains no semicolon and
+   no metacharacter *)
+Theorem C32_quoted_form_is_text_and_entity_references : forall s, bytes_ok s ->
+  exists items, html_quote s = concat items /\ Forall html_item items.
+Proof. exact html_quote_items. Qed.
+
+(* in particular no less-than, greater-than or quote character occurs anywhere in it *)
+Theorem C32_no_raw_angle_bracket_or_quote : forall s, bytes_ok s ->
+  forallb (fun c => negb (is_quote_meta c)) (html_quote s) = true.
+Proof. exact html_quote_no_angle_or_quote. Qed.
+
+(* decoding the entity references of the quoted form (strict reference decoder: it rejects any
+   raw metacharacter and any malformed or unknown reference) gives back the quoted C string *)
 Theorem C32_unquote_quote_is_identity : forall s, bytes_ok s ->
   html_unquote (html_quote s) = Some (cstr s).
 Proof. exact html_unquote_quote. Qed.
@@ -15,5 +31,30 @@ Theorem C32_unquote_quote_is_identity_nul_free : forall s, bytes_ok s -> nul_fre
   html_unquote (html_quote s) = Some s.
 Proof. exact html_unquote_quote_nul_free. Qed.
 
+(* the reference decoder cuts a successfully decoded prefix off: decoding is compositional *)
+Theorem C32_reference_decoder_is_compositional : forall e p out r, html_dec e p = Some out ->
+  html_dec (e ++ r) p = option_map (app out) (html_dec r None).
+Proof. exact html_dec_app. Qed.
+
+(* non-vacuity / what the statements mean on concrete values *)
+Example C32_example_quote :
+  html_quote [60; 97; 38; 255; 10] =
+  [38;108;116;59; 97; 38;97;109;112;59; 38;35;50;53;53;59; 10].
+Proof. vm_compute. reflexivity. Qed.
+Example C32_example_hypotheses : bytes_ok [60; 97; 38; 255; 10] /\ nul_free [60; 97; 38; 255; 10].
+Proof. split; repeat constructor; discriminate. Qed.
+Example C32_example_decoder_is_strict :
+  html_unquote [97; 60] = None /\ html_unquote [38; 108; 116] = None /\
+  html_unquote [38; 110; 98; 115; 112; 59] = None /\ html_unquote [38; 35; 120; 52; 49; 59] = Some [65].
+Proof. vm_compute. repeat split. Qed.
+Example C32_example_item : html_item [38; 108; 116; 59] /\ html_item [97] /\ ~ html_item [60].
+Proof.
+  split; [apply html_item_b_sound; reflexivity|]. split; [apply html_item_b_sound; reflexivity|].
+  intros [[c [H1 H2]]|[name [v [H1 _]]]]; [injection H1 as <-; discriminate|discriminate].
+Qed.
+
+Print Assumptions C32_quoted_form_is_text_and_entity_references.
+Print Assumptions C32_no_raw_angle_bracket_or_quote.
 Print Assumptions C32_unquote_quote_is_identity.
 Print Assumptions C32_unquote_quote_is_identity_nul_free.
+Print Assumptions C32_reference_decoder_is_compositional.
